@@ -379,6 +379,15 @@ def witness_search(ctx: Ctx, thorough: bool):
                     bad = (f"create_ccsds_packet({d}, {ln} data bytes): " + (f"raises {pkt}" if kind != "ok" else
                            f"header {bytes(pkt)[:6].hex()}, CCSDS layout gives {want[:6].hex()}"))
                     break
+                # the object create_ccsds_packet RETURNS answers like a packet framed from the same bytes
+                for acc, wantv in [(fname, d[fname]) for fname, _ in FIELDS] + [("data_length", ln - 1),
+                                                                                 ("header_values", tuple(d[f] for f, _ in FIELDS) + (ln - 1,))]:
+                    k2, got = h.outcome(f"obj.{acc}", PK, obj=pkt)
+                    if k2 != "ok" or (tuple(got) if acc == "header_values" else got) != wantv:
+                        bad = f"the packet returned by create_ccsds_packet({d}, {ln} data bytes): {acc} is {got!r}, its bytes say {wantv!r}"
+                        break
+                if bad:
+                    break
                 obj = BytesObj(want, cls="RawPacketData")
                 for fname, _ in FIELDS:
                     k2, got = h.outcome(f"obj.{fname}", PK, obj=obj)
